@@ -7,7 +7,7 @@ sys.path.insert(0, V)
 from rules import facts, mir
 from rules.facts import CheckerError
 from rules.registry import PROPS, RULES
-from tools.selftest import make_copy
+from tools.selftest import make_copy, KNOWN_KEYS
 rc = 0
 for patch in sys.argv[1:]:
     patch = os.path.abspath(patch)
@@ -34,7 +34,7 @@ for patch in sys.argv[1:]:
                     continue
                 res = [x for x in cache[rid] if sel is None or sel(x)]
                 for x in res:
-                    if x["verdict"] == "violation":
+                    if x["verdict"] == "violation" and (pid, x["key"]) not in KNOWN_KEYS:
                         problems.append("%s: VIOLATION %s — %s" % (pid, x["key"], x["detail"][:160]))
                 dec = [x for x in res if x["verdict"] in ("ok", "violation")]
                 if len(dec) < floor:
